@@ -162,6 +162,9 @@ def check_grain(case):
     m = GrainGrowthModel(cmin, cmin * case["span"], case["bins"], max(4, case["bins"] // 2 + 2), case["bins"] * 2, solverType=it)
     m.setGrainBoundaryEnergy(case["gbe"])
     m.setGrainBoundaryMobility(case["M"])
+    if case.get("alpha", 1.0) != 1.0:
+        m.setAlpha(case["alpha"])
+        out.label("alpha_not_1")
     lo, hi = m.pbm.PSDbounds[0], m.pbm.PSDbounds[-1]
     f = lambda R: sum(a * np.exp(-(np.log(R / (lo + c * (hi - lo))) / w) ** 2) for a, c, w in case["modes"])
     if case.get("data"):
@@ -323,7 +326,7 @@ def _grain_case(draw):
             "z": draw(st.sampled_from([0.0, 0.0, 1.0])) * 10 ** draw(st.floats(2, 9)), "nsteps": draw(st.integers(5, 120)),
             "calls": draw(st.sampled_from([[1.0], [0.5, 0.5], [0.2, 0.3, 0.5]])), "iterator": draw(st.sampled_from(["euler", "rk4"])),
             "data": draw(st.one_of(st.none(), st.none(), st.lists(st.floats(0.02, 0.6), min_size=40, max_size=80))),
-            "pre_reset": draw(st.sampled_from([0, 0, 3, 20]))}
+            "pre_reset": draw(st.sampled_from([0, 0, 3, 20])), "alpha": draw(st.sampled_from([1.0, 1.0, 0.5, 2.0, 3.0]))}
 
 
 @st.composite
@@ -348,7 +351,7 @@ def clauses():
         Clause("mixed_limits", _strength_case, check_mixed, quick=2500, thorough=100000,
                rule="same parameter generator; the mixed-dislocation formulas at 90 and 0 degrees against the edge and screw formulas (rtol 5e-3, simple J)"),
         Clause("graingrowth", _grain_case, check_grain, quick=250, thorough=8000, shrink=False,
-               rule="generator: grid, log-normal or bimodal grain size distribution, boundary energy/mobility, Zener drag {0, 1e2..1e9}, 5-120 steps split over 1-3 solve calls, both iterators, distribution loaded from a function or from data, optionally after an earlier run and reset(); oracle: third moment after every step equals the one the run started from (1), mean size non-decreasing without drag, drag never reverses/accelerates a boundary and freezes the structure when it exceeds every driving pressure; non-trivial: >= 5 steps"),
+               rule="generator: grid, log-normal or bimodal grain size distribution, boundary energy/mobility, correction factor alpha in {0.5, 1, 2, 3}, Zener drag {0, 1e2..1e9}, 5-120 steps split over 1-3 solve calls, both iterators, distribution loaded from a function or from data, optionally after an earlier run and reset(); oracle: third moment after every step equals the one the run started from (1), mean size non-decreasing without drag, drag never reverses/accelerates a boundary and freezes the structure when it exceeds every driving pressure; non-trivial: >= 5 steps"),
         Clause("coupled", _coupled_case, check_coupled, quick=60, thorough=1500, shrink=False,
                rule="generator: toy binary precipitation scenario (1-3 solve calls) with a StrengthModel and a GrainGrowthModel attached from the start; after every host step: strength histories have exactly one entry per host row, grain-growth clock equals host clock (1e-9 rel); non-trivial: >= 30 host steps"),
     ]
